@@ -22,6 +22,8 @@ type C16Case struct {
 	File   int        `json:"file"`  // index of the faulty unit (0..2)
 	Cmd    string     `json:"cmd"`   // generate | generate-stdin | update | compare | compare-github | format | format-check | update-copyright
 	All    bool       `json:"all"`
+	// Spell: renumber / renumber-check: how the test file is named on the command line (id | file)
+	Spell string `json:"spell,omitempty"`
 }
 
 var c16Targets = []struct {
@@ -43,7 +45,7 @@ func genC16(t *rapid.T) C16Case {
 		c.UseInc = append(c.UseInc, rapid.Bool().Draw(t, "useinc"))
 	}
 	c.File = rapid.IntRange(0, 2).Draw(t, "file")
-	c.Cmd = rapid.SampledFrom([]string{"generate", "generate-stdin", "update", "update", "compare", "compare-github", "format", "format-check", "update-copyright", "bad-argument"}).Draw(t, "cmd")
+	c.Cmd = rapid.SampledFrom([]string{"generate", "generate-stdin", "update", "update", "compare", "compare-github", "format", "format-check", "update-copyright", "bad-argument", "renumber", "renumber-check"}).Draw(t, "cmd")
 	switch c.Cmd {
 	case "generate", "generate-stdin":
 		c.Fault = rapid.SampledFrom(assemblyFaults).Draw(t, "fault")
@@ -59,8 +61,13 @@ func genC16(t *rapid.T) C16Case {
 		c.All = rapid.Bool().Draw(t, "all")
 	case "update-copyright":
 		c.Fault = rapid.SampledFrom([]string{"invalid-version:notaversion", "invalid-version:4.x", "invalid-version:", "invalid-version:1.2.3.4.5", "invalid-version:..", "missing-version"}).Draw(t, "fault")
+	case "renumber", "renumber-check":
+		// the test file of the rule does not exist, or the same file name exists in two test directories
+		c.Fault = rapid.SampledFrom([]string{"test-file-absent", "test-file-ambiguous", "test-file-ambiguous"}).Draw(t, "fault")
+		c.Spell = rapid.SampledFrom([]string{"id", "file"}).Draw(t, "spell")
 	case "bad-argument":
-		c.Fault = "malformed-rule-id:" + rapid.SampledFrom([]string{"93210", "9321000", "932100-chain", "932100-chain256", "abcdef", "932100.rb", "932100-chain1x", ""}).Draw(t, "badarg")
+		// offsets above 255 come with an assembly file of that name: the argument itself is what is wrong
+		c.Fault = "malformed-rule-id:" + rapid.SampledFrom([]string{"93210", "9321000", "932100-chain", "932100-chain256", "932100-chain257", "932110-chain257", "932100-chain512", "932100-chain65536", "abcdef", "932100.rb", "932100-chain1x", ""}).Draw(t, "badarg")
 		c.Cmd = rapid.SampledFrom([]string{"generate", "update", "compare"}).Draw(t, "badargcmd")
 	}
 	c.Where = rapid.SampledFrom([]string{"top", "block", "include", "nested-include"}).Draw(t, "where")
@@ -131,11 +138,23 @@ func (c C16Case) build(withFault bool) cli.Tree {
 		"regex-assembly/include/shared.ra":     "shared1\nshared2\n##!> include inner\n",
 		"regex-assembly/include/inner.ra":      "inner1\ninner2\n",
 		"crs-setup.conf.example":               "# OWASP CRS ver.4.0.0\n# Copyright (c) 2021-2024 CRS project. All rights reserved.\n",
-		"tests/regression/tests/R/932100.yaml": "---\ntests:\n  - test_id: 1\n",
+		"tests/regression/tests/R/932100.yaml": "---\ntests:\n  - test_id: 5\n  - test_id: 9\n",
 		// stray assembly files that are no rule files; they sort before, between and after the rule files
 		"regex-assembly/0-scratch.ra":    "scratch\n",
 		"regex-assembly/932105-draft.ra": "draft\n",
 		"regex-assembly/zz-notes.ra":     "notes\n",
+	}
+	if arg := strings.TrimPrefix(c.Fault, "malformed-rule-id:"); withFault && arg != c.Fault && arg != "" && !strings.Contains(arg, "/") {
+		t["regex-assembly/"+strings.TrimSuffix(arg, ".ra")+".ra"] = "named like the argument\nsecond entry\n"
+	}
+	if withFault {
+		switch c.Fault {
+		case "test-file-absent":
+			delete(t, "tests/regression/tests/R/932100.yaml")
+			t["tests/regression/tests/R/932101.yaml"] = "---\ntests:\n  - test_id: 5\n"
+		case "test-file-ambiguous":
+			t["tests/regression/tests/S/932100.yaml"] = "---\ntests:\n  - test_id: 7\n"
+		}
 	}
 	fl := c16FaultLines(c.Fault)
 	for i, tg := range c16Targets {
@@ -300,6 +319,15 @@ func (c C16Case) argv(root string, withFault bool) ([]string, string) {
 			return append(base, "regex", "format", "--check", "--all"), ""
 		}
 		return append(base, "regex", "format", "--check", arg), ""
+	case "renumber", "renumber-check":
+		a := []string{"util", "renumber-tests"}
+		if c.Cmd == "renumber-check" {
+			a = append(a, "--check")
+		}
+		if c.Spell == "file" {
+			return append(base, append(a, "932100.yaml")...), ""
+		}
+		return append(base, append(a, "932100")...), ""
 	case "update-copyright":
 		if c.Fault == "missing-version" {
 			return append(base, "chore", "update-copyright", "-y", "2026"), ""
@@ -345,7 +373,7 @@ func checkC16(c C16Case) Outcome {
 	// converse first: the healthy tree must work (guards against "everything fails")
 	if !strings.HasPrefix(c.Fault, "invalid-version") && c.Fault != "missing-version" && !strings.HasPrefix(c.Fault, "malformed-rule-id") {
 		hr, _, _ := runOn(c.build(false), false)
-		okExit := hr.Exit == 0 || (strings.HasPrefix(c.Cmd, "compare") && hr.Exit == 1 && (strings.Contains(hr.Stdout, "has changed") || c.Cmd == "compare-github")) || (c.Cmd == "format-check" && hr.Exit == 1)
+		okExit := hr.Exit == 0 || (strings.HasPrefix(c.Cmd, "compare") && hr.Exit == 1 && (strings.Contains(hr.Stdout, "has changed") || c.Cmd == "compare-github")) || (c.Cmd == "format-check" && hr.Exit == 1) || (c.Cmd == "renumber-check" && hr.Exit == 1)
 		if !okExit {
 			out.Detail["healthy_exit"], out.Detail["healthy_stderr"] = hr.Exit, tailLines(hr.Stderr, 5)
 			out.HarnessError = fmt.Sprintf("the healthy tree does not work with %s (exit %d)", c.Cmd, hr.Exit)
